@@ -68,6 +68,7 @@ def main():
     ap = argparse.ArgumentParser()
     ap.add_argument("--from", dest="src")
     ap.add_argument("--tag", default="")
+    ap.add_argument("--older-than", type=float, default=0, help="minutes: only re-evaluate seeds evaluated before")
     a = ap.parse_args()
     os.makedirs(SEEDED, exist_ok=True)
     if a.src:
@@ -97,13 +98,24 @@ def main():
                 }
                 json.dump(meta, open(os.path.join(d, "meta.json"), "w"), indent=1)
     sids = sorted(s for s in os.listdir(SEEDED) if os.path.isdir(os.path.join(SEEDED, s)))
-    rows = []
+    todo = sids
+    if a.older_than:
+        # only the seeds whose evaluation is older than that many minutes (an interrupted run is resumed)
+        import time
+        limit = time.time() - 60 * a.older_than
+        todo = [s for s in sids if os.path.getmtime(os.path.join(SEEDED, s, "meta.json")) < limit]
+        print("re-evaluating %d of %d seeds" % (len(todo), len(sids)), flush=True)
     with concurrent.futures.ProcessPoolExecutor(max_workers=14) as ex:
-        for sid, meta in ex.map(evaluate, sids):
+        futs = {ex.submit(evaluate, sid): sid for sid in todo}
+        for fut in concurrent.futures.as_completed(futs):
+            sid, meta = fut.result()
             json.dump(meta, open(os.path.join(SEEDED, sid, "meta.json"), "w"), indent=1)
-            ev = meta.get("evaluation", {})
-            rows.append((sid, meta["property"], ev.get("demo_confirms"), ev.get("detected_by_own_check"),
-                         ev.get("own_check_rules"), ev.get("violations_in"), ev.get("inconclusive_in"), ev.get("error")))
+    rows = []
+    for sid in sids:
+        meta = json.load(open(os.path.join(SEEDED, sid, "meta.json")))
+        ev = meta.get("evaluation", {})
+        rows.append((sid, meta["property"], ev.get("demo_confirms"), ev.get("detected_by_own_check"),
+                     ev.get("own_check_rules"), ev.get("violations_in"), ev.get("inconclusive_in"), ev.get("error")))
     with open(os.path.join(SEEDED, "README.md"), "w") as f:
         f.write("# Seeded property-breaking changes\n\nNone of these is ever committed to /repo. Each was written by an "
                 "independent sub-agent that saw only the property text, confirmed (demo fails with the change, holds "
